@@ -24,10 +24,15 @@ fn main() {
     mon::drive::install_panic_hook();
     let t0 = std::time::Instant::now();
     let res = match prop.as_str() {
+        "C01" => props::c01::run(&ctx),
+        "C02" => props::c02::run(&ctx),
         "C05" => props::c05::run(&ctx),
         "C06" => props::c06::run(&ctx),
         "C07" => props::c07::run(&ctx),
         "C08" => props::c08::run(&ctx),
+        "C09" => props::c09::run(&ctx),
+        "C10" => props::c10::run(&ctx),
+        "C11" => props::c11::run(&ctx),
         "C12" => props::c12::run(&ctx),
         other => {
             eprintln!("unknown property {}", other);
